@@ -24,10 +24,12 @@ impl MarkerBuilder for UnwrapBlockMarkerBuilder {
         // If the range is invalid, do nothing.
         match (start_el_remove_end_pos, end_el_remove_start_pos) {
             (Some(end), Some(start)) => {
-                if start > end {
+                if start >= end {
+                    // When the wrapper lines are adjacent, the line break between them ends no surviving line.
+                    let tail_start = if start == end { start } else { start + 1 };
                     (
                         el.start_token.byte_start..end,
-                        Some(start + 1..el.end_token.byte_end),
+                        Some(tail_start..el.end_token.byte_end),
                     )
                 } else {
                     (el.start_token.byte_start..el.start_token.byte_start, None)
